@@ -216,6 +216,18 @@ class SiteModel:
     def _is_stream_expr(self, fn: FuncInfo, e: ast.AST, depth=0) -> bool:
         """e evaluates to (something iterating) an evaluation stream."""
         if isinstance(e, ast.Call) and is_eval_name(call_attr(e)):
+            # a conclusion is applied to a row and returns the row (its _evaluate__ is no generator)
+            try:
+                origins = self.origins(fn, e.func.value) if isinstance(e.func, ast.Attribute) else []
+            except Exception:
+                origins = []
+            if origins and all("_conclusion_" in o for o in origins):
+                concl = self.db.cls("Conclusion", required=False)
+                if concl is not None:
+                    impls = [c.methods.get(call_attr(e)) for c in [concl] + concl.all_subclasses()]
+                    impls = [m for m in impls if m is not None]
+                    if impls and not any(m.is_generator for m in impls):
+                        return False
             return True
         if isinstance(e, ast.Call):
             d = dotted(e.func) or ""
